@@ -185,6 +185,48 @@ func PathCondsE(fn *ssa.Function) (map[*ssa.BasicBlock]DNF, map[Edge]DNF, bool) 
 		if !isIf || p.Succs[0] == p.Succs[1] {
 			return pc
 		}
+		// a nil test of a phi (the result variable of an expanded helper, `x := f(); if x != nil`
+		// after expansion): per incoming edge of the phi the outcome is known, or is the nil-ness
+		// of that edge's operand
+		if nv, trueMeansNil, isNil := NilCheck(iff.Cond); isNil {
+			if phi, isPhi := nv.(*ssa.Phi); isPhi && IsExpansionTemp(phi) && (phi.Block() == p || phi.Block().Dominates(p)) {
+				q := phi.Block()
+				wantNil := (p.Succs[0] == b) == trueMeansNil
+				var d DNF
+				usable := true
+				for i, e := range phi.Edges {
+					pp := q.Preds[i]
+					if q.Dominates(pp) {
+						usable = false // carried around a loop
+						break
+					}
+					ec, have := edgeConds[Edge{pp, q}]
+					if !have {
+						continue
+					}
+					switch nilness(e, pp) {
+					case 1:
+						if wantNil {
+							d = d.or(ec)
+						}
+					case 2:
+						if !wantNil {
+							d = d.or(ec)
+						}
+					default:
+						l := nilLit(e)
+						l.Pos = wantNil
+						d = d.or(ec.and(l))
+					}
+				}
+				if usable {
+					if q == p {
+						return simplify(d)
+					}
+					return simplify(andDNF(pc, d))
+				}
+			}
+		}
 		v, neg := BoolCond(iff.Cond)
 		pos := p.Succs[0] == b
 		if neg {
@@ -421,6 +463,11 @@ func ExtractTable(fn *ssa.Function, resIdx int) (*Table, error) {
 						}
 						pc = pc.and(mkLit(cv, pos))
 					}
+				}
+				if pb != r.Block() && pb.Dominates(r.Block()) && !pb.Dominates(p) {
+					// the phi was formed earlier: the return is reached through this edge AND under
+					// the conditions that lead from the phi's block to the return
+					pc = andDNF(conds[r.Block()], pc)
 				}
 				classify(e, p, simplify(pc), r)
 			}
